@@ -67,6 +67,8 @@ func checkC16(c *Ctx, r *Report) {
 	c16Isolation(c, r)
 	r.floor("R16.6", 20)
 	c16SharedState(c, r)
+	c16WriteFailure(c, r)
+	r.floor("R16.9", 1)
 	r.assumption("handler-built responses and handler-typed errors are outside the property; function codes are 1..127")
 	r.assumption("the assembler calls the dispatcher only with a frame the classifier accepted and that is completely buffered (C15 R15.1)")
 }
@@ -570,6 +572,69 @@ func globalBase(v ssa.Value, depth int, seen map[ssa.Value]bool) *ssa.Global {
 // dispatcher, reply encoders) writes package-level state, directly or through a pointer loaded
 // from a package-level variable (a shared error value patched per request is visible to every
 // other connection).
+// c16WriteFailure: R16.9 — a reply whose write failed may have reached the client in part; the
+// connection must not be used for further replies (the next reply would follow the torn prefix
+// and the client could no longer frame either). Decided on the connection loop's CFG: from the
+// branch taken when the reply Write returned an error, the transport Read is not reachable.
+func c16WriteFailure(c *Ctx, r *Report) {
+	h := c.fnMust("server", "*connection.handle")
+	id := fnID(h)
+	r.instance("R16.9", 1)
+	var write, read *ssa.Call
+	for _, b := range h.Blocks {
+		for _, in := range b.Instrs {
+			if call, ok := in.(*ssa.Call); ok && call.Common().IsInvoke() && len(call.Common().Args) == 1 {
+				switch call.Common().Method.Name() {
+				case "Write":
+					write = call
+				case "Read":
+					read = call
+				}
+			}
+		}
+	}
+	if write == nil || read == nil {
+		r.undecided("R16.9", id, "connection loop lacks the transport Read / reply Write calls", c.pos(h.Pos()))
+		return
+	}
+	var werr ssa.Value
+	if refs := write.Referrers(); refs != nil {
+		for _, rf := range *refs {
+			if e, ok := rf.(*ssa.Extract); ok && e.Index == 1 {
+				werr = e
+			}
+		}
+	}
+	okEnds, found := true, false
+	for _, b := range h.Blocks {
+		iff, ok := b.Instrs[len(b.Instrs)-1].(*ssa.If)
+		if !ok {
+			continue
+		}
+		cmp, ok := iff.Cond.(*ssa.BinOp)
+		if !ok || (cmp.X != werr && cmp.Y != werr) || werr == nil {
+			continue
+		}
+		failed := b.Succs[0] // err != nil
+		if cmp.Op == token.EQL {
+			failed = b.Succs[1]
+		}
+		found = true
+		if failed == read.Block() || blockReaches(failed, read.Block()) {
+			okEnds = false
+		}
+	}
+	if !found {
+		r.fail("R16.9", id, "the error of the reply Write is not tested", c.pos(write.Pos()), "", "write-error-ignored")
+		return
+	}
+	if okEnds {
+		r.ok("R16.9", id, "after a failed reply write the connection loop ends (no further reply can follow a possibly torn one)", c.pos(write.Pos()), true)
+	} else {
+		r.fail("R16.9", id, "after a failed reply write the connection loop can go on reading and replying: the next reply would follow a possibly torn one", c.pos(write.Pos()), "", "continues-after-write-error")
+	}
+}
+
 func c16SharedState(c *Ctx, r *Report) {
 	var roots []*ssa.Function
 	for _, fn := range c.allFuncs("server") {
